@@ -1,14 +1,19 @@
-(** C09 — [BaseModel.estimate] (src/leaspy/models/base.py:864-935) as list operations.  Definitions only.
+(** C09 — [BaseModel.estimate] (src/leaspy/models/base.py:864-937) as list operations.  Definitions only.
 
     Mirrors the code line by line:
+    - 866      a dict request maps each ID to "a unique time-point or a list of time-points"          -> [ages], [request]
     - 896-904  a [pd.MultiIndex] request is turned into a dict by [to_frame()["TIME"].groupby("ID")]: pandas' groupby
                sorts the group keys and keeps the original row order inside each group           -> [group]
-    - 905-909  one call of [compute_individual_trajectory(tpts, ip)] per key, in dict order         -> [estimations]
-    - 912-923  [pd.concat] of one frame per individual, indexed by the requested ages of that individual
-               (pandas refuses a frame whose number of rows differs from the length of its index)  -> [frame]
-    - 925-933  for a MultiIndex request: LEFT JOIN of the requested index with that frame on (ID, TIME): every requested
-               row is followed by ALL rows of the frame carrying the same (ID, TIME) pair, in frame order; a requested
-               row without match would get missing values                                           -> [join]
+    - 905-909  one call of [compute_individual_trajectory(tpts, ip)] per key, in dict order, [tpts] being passed as
+               it was given (scalar or list)                                                        -> [estimations]
+    - 912-923  [pd.concat] of one frame per individual, indexed by [np.atleast_1d] of the requested ages of that
+               individual (a scalar age is an index of length one; pandas refuses a frame whose number of rows
+               differs from the length of its index)                                                -> [atleast_1d], [frame]
+    - 931-934  for a MultiIndex request: [estimations[~estimations.index.duplicated()]] keeps, of the rows of that frame
+               carrying the same (ID, TIME) pair, the FIRST one only                                 -> [first_rows]
+               then LEFT JOIN of the requested index with the de-duplicated frame on (ID, TIME): every requested
+               row is followed by all rows of the joined frame carrying the same (ID, TIME) pair, in frame order; a
+               requested row without match would get missing values                                  -> [join]
     - 898-899, 912  [to_dataframe] defaults to "is the request a MultiIndex"                        -> [estimate]
 
     The model covers requests whose IDs all have individual parameters ([individual_parameters[subj_id]] raises
@@ -22,10 +27,19 @@ Section Estimate.
   Variable id_leb : ID -> ID -> bool.     (* the order pandas sorts group keys with *)
   Variable t_eqb : T -> T -> bool.
 
-  (** [compute_individual_trajectory]: all the ages of one individual in, one row per age out *)
-  Variable traj : ID -> list T -> list V.
+  (** the ages requested for one individual: a unique time-point or a list of time-points *)
+  Inductive ages :=
+  | One (t : T)
+  | Many (ts : list T).
 
-  Definition request := list (ID * list T).    (* dict input: items in insertion order *)
+  (** [np.atleast_1d] *)
+  Definition atleast_1d (a : ages) : list T :=
+    match a with One t => [t] | Many ts => ts end.
+
+  (** [compute_individual_trajectory]: the ages of one individual in (as given), one row per age out *)
+  Variable traj : ID -> ages -> list V.
+
+  Definition request := list (ID * ages).      (* dict input: items in insertion order *)
   Definition index := list (ID * T).           (* MultiIndex input: rows in order *)
 
   Inductive input :=
@@ -58,7 +72,7 @@ Section Estimate.
     map snd (filter (fun r => id_eqb (fst r) i) ix).
 
   Definition group (ix : index) : request :=
-    map (fun i => (i, ages_of i ix)) (group_keys ix).
+    map (fun i => (i, Many (ages_of i ix))) (group_keys ix).
 
   Definition estimations (req : request) : list (ID * list V) :=
     map (fun r => (fst r, traj (fst r) (snd r))) req.
@@ -75,14 +89,24 @@ Section Estimate.
     match req with
     | [] => Some []
     | r :: rest =>
-        match zip_rows (fst r) (snd r) (traj (fst r) (snd r)), frame rest with
+        match zip_rows (fst r) (atleast_1d (snd r)) (traj (fst r) (snd r)), frame rest with
         | Some a, Some b => Some (a ++ b)
         | _, _ => None
         end
     end.
 
-  Definition key_eqb (k : ID * T) (r : ID * T * V) : bool :=
-    id_eqb (fst k) (fst (fst r)) && t_eqb (snd k) (snd (fst r)).
+  Definition pair_eqb (a b : ID * T) : bool := id_eqb (fst a) (fst b) && t_eqb (snd a) (snd b).
+
+  Definition key_eqb (k : ID * T) (r : ID * T * V) : bool := pair_eqb k (fst r).
+
+  (** [fr[~fr.index.duplicated()]]: a row is dropped when its (ID, TIME) pair was already seen on an earlier row *)
+  Fixpoint first_rows (seen : list (ID * T)) (fr : list (ID * T * V)) : list (ID * T * V) :=
+    match fr with
+    | [] => []
+    | r :: rest =>
+        if existsb (pair_eqb (fst r)) seen then first_rows seen rest
+        else r :: first_rows (fst r :: seen) rest
+    end.
 
   Definition join (ix : index) (fr : list (ID * T * V)) : list (ID * T * option V) :=
     flat_map (fun k =>
@@ -109,7 +133,7 @@ Section Estimate.
       | Some fr =>
           match inp with
           | InDict _ => OutFrame (map (fun r => (fst (fst r), snd (fst r), Some (snd r))) fr)
-          | InIndex ix => OutFrame (join ix fr)
+          | InIndex ix => OutFrame (join ix (first_rows [] fr))
           end
       end
     else OutDict (estimations req).
@@ -119,9 +143,11 @@ Section Estimate.
 
   (** number of requested rows carrying the pair [k] *)
   Definition count (k : ID * T) (ix : index) : nat :=
-    length (filter (fun r => id_eqb (fst k) (fst r) && t_eqb (snd k) (snd r)) ix).
+    length (filter (pair_eqb k) ix).
 End Estimate.
 
+Arguments One {T}.
+Arguments Many {T}.
 Arguments InDict {ID T}.
 Arguments InIndex {ID T}.
 Arguments OutDict {ID T V}.
